@@ -28,7 +28,7 @@ LENS = sorted(set(list(range(0, 70)) + [127, 128, 129, 255, 256, 257, 264, 280, 
 MASKS = list(range(0, 17)) + [31, 32, 127, 128, 255, 256]
 LEVELS = list(range(0, 10))
 POW = sorted({max(0, (1 << k) + d) for k in range(0, 140) for d in (-1, 0, 1)} | {(1 << k) + d for k in (255, 256, 257, 1015, 1016) for d in (-1, 0)})
-SIGNED = sorted({s * v for v in POW for s in (1, -1)} | {-v - 1 for v in POW})
+SIGNED = sorted({s * v for v in POW for s in (1, -1)} | {-v - 1 for v in POW}, key=lambda v: (abs(v), v))
 WIDE = sorted({max(0, (1 << k) + d) for k in list(range(0, 80)) for d in (-2, -1, 0, 1)} | set(range(0, 600)))
 
 GROUPS = {
@@ -159,19 +159,19 @@ def regenerator(group):
 
 # ---------------------------------------------------------------------------- search hook
 
-def _lean_val(v):
-    if isinstance(v, bool):
-        return 'true' if v else 'false'
-    return f'({v})' if v < 0 else str(v)
+def _conv(name, ty):
+    return {'Nat': f'(x_{name}).toNat', 'Int': f'x_{name}', 'Bool': f'(x_{name} != 0)'}[ty]
 
 
-def diff_points(groups, limit=12, timeout=600):
+def diff_points(groups, limit=16, timeout=600):
     """Evaluates, in Lean, every regenerated definition against the function it is proved equal to (`ref`) on a grid
-    of boundary values and returns {definition: [ {param: value} ... ]} for the points where they differ (or where the
-    guard holds and they differ).  Needs only `lake env lean` on the Generated/Model/Spec modules (not the proofs)."""
+    of boundary values and returns ({definition: [ {param: value} ... ] | None}, error text): the points where they differ
+    (restricted to the guard, if any); None = could not be evaluated.  Needs only `lake env lean` on the
+    Generated/Model/Spec modules (not the proofs).  Grid values travel as strings (parsed in Lean) to keep elaboration cheap."""
     lines = ['import TonVerif.Model.Cell', 'import TonVerif.Spec.Cell', 'import TonVerif.Spec.TlbPrim']
     lines += [f'import TonVerif.Generated.{g}' for g in groups]
-    lines += ['open TonVerif TonVerif.Generated', 'set_option maxRecDepth 100000']
+    lines += ['open TonVerif TonVerif.Generated',
+              'def parseInts (s : String) : List Int := (s.splitOn " ").filterMap String.toInt?']
     order = []
     for g in groups:
         for t in GROUPS[g]['targets']:
@@ -181,22 +181,25 @@ def diff_points(groups, limit=12, timeout=600):
             decl = {n: ty for n, ty in t['binds'].values()}
             order.append(t)
             if not ps:
-                lines.append(f'#eval IO.println (s!"PT {t["lean"]} " ++ (if ({t["lean"]}) == ({t["ref"]}) then "" else "()"))')
+                lines.append(f'#eval IO.println (s!"PT {t["lean"]} " ++ (if ({t["lean"]}) == ({t["ref"]}) then "[]" else "[0]"))')
                 continue
-            tup = ' × '.join(decl[p] for p in ps)
-            pts = [[]]
-            for p in ps:
-                pts = [x + [v] for x in pts for v in t['grid'][p]]
-            lit = ', '.join('(' + ', '.join(_lean_val(v) for v in pt) + ')' if len(ps) > 1 else _lean_val(pt[0]) for pt in pts)
-            pat = '(' + ', '.join(ps) + ')' if len(ps) > 1 else ps[0]
+            for p_ in ps:
+                vals = ' '.join(str(int(v)) for v in t['grid'][p_])
+                lines.append(f'def g_{t["lean"]}_{p_} : List Int := parseInts "{vals}"')
+            prod = f'g_{t["lean"]}_{ps[-1]}.map (fun x_{ps[-1]} => [{", ".join("x_" + q for q in ps)}])'
+            for p_ in reversed(ps[:-1]):
+                prod = f'g_{t["lean"]}_{p_}.flatMap (fun x_{p_} => {prod})'
+            lets = ' '.join(f'let {q} : {decl[q]} := {_conv(q, decl[q])};' for q in ps)
+            pat = ' '.join(f'| [{", ".join("x_" + q for q in ps)}] => {lets} ' for _ in [0])
             guard = f'decide ({t["guard"]}) && ' if t['guard'] else ''
-            lines.append(f'def pts_{t["lean"]} : List ({tup}) := [{lit}]')
-            lines.append(f'#eval IO.println (s!"PT {t["lean"]} " ++ toString ((pts_{t["lean"]}.filter (fun ({pat} : {tup}) => '
-                         f'{guard}!(({t["lean"]} {" ".join(ps)}) == ({t["ref"]}))).take {limit}))')
+            lines.append(f'#eval IO.println (s!"PT {t["lean"]} " ++ toString ((({prod}).filter (fun (pt : List Int) => match pt with '
+                         f'{pat}({guard}!(({t["lean"]} {" ".join(ps)}) == ({t["ref"]}))) | _ => false)).take {limit}))')
     tmp = os.path.join(LEAN, f'.srcdiff_{os.getpid()}.lean')
     with open(tmp, 'w') as f:
         f.write('\n'.join(lines) + '\n')
     try:
+        subprocess.run(['lake', 'build'] + [f'TonVerif.Generated.{g}' for g in groups] + ['TonVerif.Model.Cell', 'TonVerif.Spec.Cell'],
+                       cwd=LEAN, capture_output=True, text=True, timeout=timeout)      # the oleans must be those of the current text
         p = subprocess.run(['lake', 'env', 'lean', tmp], cwd=LEAN, capture_output=True, text=True, timeout=timeout)
     finally:
         os.unlink(tmp)
@@ -206,16 +209,16 @@ def diff_points(groups, limit=12, timeout=600):
         if not m:
             res[t['lean']] = None          # could not be evaluated
             continue
-        body = m.group(1).strip()
+        decl = {n: ty for n, ty in t['binds'].values()}
         pts = []
-        if body == '()':
-            pts = [{}]
-        elif body not in ('', '[]'):
-            for tup in re.findall(r'\(([^()]*)\)', body) if len(t['params']) > 1 else [x for x in body.strip('[]').split(',')]:
-                vals = [x.strip() for x in tup.split(',')]
-                pts.append({n: (v == 'true') if v in ('true', 'false') else int(v) for n, v in zip(t['params'], vals)})
+        if not t['params']:
+            pts = [{}] if m.group(1).strip() == '[0]' else []
+        else:
+            for tup in re.findall(r'\[([-0-9, ]+)\]', m.group(1)):
+                vals = [int(x) for x in tup.split(',')]
+                pts.append({n: (bool(v) if decl[n] == 'Bool' else v) for n, v in zip(t['params'], vals)})
         res[t['lean']] = pts
-    return res, (p.stdout + p.stderr)[-400:] if p.returncode else ''
+    return res, ((p.stdout + p.stderr)[-400:] if p.returncode else '')
 
 
 def search_points(ctx, groups):
